@@ -58,6 +58,12 @@ Proof.
     + destruct (co_act_ends o); [reflexivity | discriminate].
     + destruct (co_parent_end o); [discriminate | reflexivity].
 Qed.
+Theorem forced_check_sound o : forced_check o = [] -> co_inputs_ok o = true /\ exists x, co_act_ends o = [x].
+Proof.
+  unfold forced_check. intros H. apply app_eq_nil in H as [H1 H2].
+  split; [destruct (co_inputs_ok o); [reflexivity | discriminate]|].
+  destruct (co_act_ends o) as [|x [|y r]]; try discriminate. now exists x.
+Qed.
 Theorem call_check_missing o : call_check o = [] -> co_missing o = true -> co_act_open o = false.
 Proof. unfold call_check. intros H Hm. rewrite Hm in H. destruct (co_act_open o); [discriminate | reflexivity]. Qed.
 (* the return mapping: error, abort and skip are passed on, every other ending completes the act *)
